@@ -48,6 +48,31 @@ pub struct Pos { first: String, second: Option<String>, rest: Vec<String>, #[arg
 #[command(name = "pos2")]
 pub struct Pos2 { #[arg(long)] tag: Option<String>, items: Option<Vec<String>>, #[command(subcommand)] cmd: Sub }
 
+// path-spelled `Vec` / `Option`: the documented opt-out of shape inference - a plain required `T`-shaped argument
+fn csv(s: &str) -> Result<Vec<String>, std::convert::Infallible> { Ok(s.split(',').map(str::to_owned).collect()) }
+fn maybe(s: &str) -> Result<Option<String>, std::convert::Infallible> { Ok(if s == "-" { None } else { Some(s.to_owned()) }) }
+#[derive(Parser, Clone, Debug, PartialEq)]
+#[command(name = "paths")]
+pub struct Paths {
+    #[arg(long, value_parser = csv)] list: std::vec::Vec<String>,
+    #[arg(value_parser = maybe)] name: std::option::Option<String>,
+    #[arg(long)] plain: Vec<String>,
+}
+
+// an explicit requirement on a nested subcommand enum: update mode must still relax it
+#[derive(Subcommand, Clone, Debug, PartialEq)]
+pub enum RemoteCmd { Add { name: String }, Show }
+#[derive(Subcommand, Clone, Debug, PartialEq)]
+#[command(arg_required_else_help = true)]
+pub enum StashCmd { Push { #[arg(short)] message: Option<String> }, Pop }
+#[derive(Parser, Clone, Debug, PartialEq)]
+#[command(name = "git")]
+pub enum Git {
+    #[command(subcommand, subcommand_required = true)] Remote(RemoteCmd),
+    #[command(subcommand)] Stash(StashCmd),
+    Status,
+}
+
 // ---------------------------------------------------------------- canonical field values
 fn h(s: &str) -> String { if s.is_empty() { "-".into() } else { hex(s.as_bytes()) } }
 fn c_one(v: &str) -> String { format!("one:{}", h(v)) }
@@ -300,6 +325,41 @@ pub fn run(o: &Opts) -> Report {
                 }
                 cur = after;
             }
+        }
+    }
+    // path-spelled types and explicit nested requirements (real crate only)
+    for k in 0..(if o.thorough() { 200 } else { 30 }) {
+        let items = words(&mut rng, 1, 3);
+        let name = if k % 3 == 0 { None } else { Some(word(&mut rng)) };
+        let plain = words(&mut rng, 0, 2);
+        let v = Paths { list: items.clone(), name: name.clone(), plain: plain.clone() };
+        let mut a: Vec<String> = vec!["paths".into(), "--list".into(), items.join(",")];
+        for p in &plain { a.push("--plain".into()); a.push(p.clone()); }
+        a.push(name.clone().unwrap_or("-".into()));
+        let key = format!("Paths argv={a:?}");
+        rep.case(&key, true); rep.count("path_spelled_types");
+        let a2 = a.clone();
+        match std::panic::catch_unwind(move || (Paths::try_parse_from(a2.clone()), Paths::command().try_get_matches_from(a2).map(|m| (m.get_one::<Vec<String>>("list").cloned(), m.get_one::<Option<String>>("name").cloned())))) {
+            Err(_) => rep.oracle_fail("derive-panics", &key, "a path-spelled Vec/Option field"),
+            Ok((Ok(p), Ok((l, n)))) => { if p != v { rep.oracle_fail("round-trip-changes-value", &key, &format!("{v:?} vs {p:?}")); } if l != Some(items.clone()) || n != Some(name.clone()) { rep.oracle_fail("field-differs-from-matches", &key, &format!("matches hold list={l:?} name={n:?}")); } }
+            Ok((p, m)) => rep.oracle_fail("canonical-argv-rejected", &key, &format!("parse ok={} command ok={}", p.is_ok(), m.is_ok())),
+        }
+        // they are required, like any other plain `T`
+        for short in [vec!["paths".to_string(), "--list".into(), "a".into()], vec!["paths".to_string(), "x".into()]] {
+            let s2 = short.clone();
+            match std::panic::catch_unwind(move || Paths::try_parse_from(s2)) { Err(_) => rep.oracle_fail("derive-panics", &format!("Paths argv={short:?}"), "panicked"), Ok(Ok(p)) => rep.oracle_fail("missing-required-accepted", &format!("Paths argv={short:?}"), &format!("{p:?}")), Ok(Err(_)) => {} }
+        }
+        // update that stops at the outer subcommand: a no-op, whatever requirement the variant or the nested enum declares
+        let starts = [(Git::Remote(RemoteCmd::Show), "remote"), (Git::Remote(RemoteCmd::Add { name: word(&mut rng) }), "remote"), (Git::Stash(StashCmd::Pop), "stash"), (Git::Stash(StashCmd::Push { message: Some(word(&mut rng)) }), "stash")];
+        let (start, outer) = starts[k % 4].clone();
+        let argv = vec!["git", outer];
+        let keyu = format!("Git update start={start:?} argv={argv:?}");
+        rep.count("updates_nested_requirement");
+        let st = start.clone(); let av = argv.clone();
+        match std::panic::catch_unwind(move || { let mut c = st.clone(); let r = c.try_update_from(av).map_err(|e| e.kind()); (c, r) }) {
+            Err(_) => rep.oracle_fail("derive-panics", &keyu, "try_update_from panicked"),
+            Ok((_, Err(kind))) => rep.oracle_fail("update-rejected-by-a-requirement", &keyu, &format!("{kind:?}")),
+            Ok((after, Ok(()))) => { if after != start { rep.oracle_fail("update-changes-unnamed-field", &keyu, &format!("{start:?} -> {after:?}")); } }
         }
     }
     if o.driver != "none" {
